@@ -32,3 +32,652 @@ fn c11_strip_first_nul() {
     kani::cover!(first < len && first > 0, "NUL in the middle");
     kani::cover!(first == len && len == 8, "no NUL at all");
 }
+
+use std::io::Cursor;
+
+use binrw::Endian;
+
+use crate::string::binrw_write_codepage_string;
+
+fn verif_fmt_ok(_o: &mut dyn core::fmt::Write, _a: core::fmt::Arguments<'_>) -> core::fmt::Result {
+    Ok(())
+}
+
+/// ASCII text of length `len` (content 'a'..): encoded length == character count.
+fn text(len: usize) -> String {
+    let mut s = String::with_capacity(len);
+    let mut i = 0;
+    while i < len {
+        s.push((b'a' + (i % 26) as u8) as char);
+        i += 1;
+    }
+    s
+}
+
+/// Fixed-width field: exactly N bytes = text truncated to N, then NULs.
+fn check_fixed<const N: usize>(len: usize, raw: bool) {
+    let s = text(len);
+    let mut w = Cursor::new(Vec::new());
+    let r = binrw_write_codepage_string::<N, _>(&s, &mut w, Endian::Little, (raw, 0));
+    assert!(r.is_ok(), "text field encodes");
+    let out = w.into_inner();
+    assert!(out.len() == N, "a fixed-width text field occupies exactly its N bytes");
+    let keep = if len < N { len } else { N };
+    let sb = s.as_bytes();
+    let mut i = 0;
+    while i < N {
+        if i < keep {
+            assert!(out[i] == sb[i], "the text, truncated to the field width");
+        } else {
+            assert!(out[i] == 0, "NUL padding after the text");
+        }
+        i += 1;
+    }
+    core::mem::forget(r);
+}
+
+/// Variable-width message field: NUL-padded to a multiple of 4, never more than N.
+fn check_aligned<const N: usize>(len: usize) {
+    let s = text(len);
+    let mut w = Cursor::new(Vec::new());
+    let r = binrw_write_codepage_string::<N, _>(&s, &mut w, Endian::Little, (false, 4));
+    assert!(r.is_ok(), "text field encodes");
+    let out = w.into_inner();
+    assert!(out.len() % 4 == 0, "a variable-width text field is padded to a multiple of 4");
+    assert!(out.len() <= N, "a variable-width text field never exceeds its maximum");
+    let keep = if len < N { len } else { N };
+    assert!(out.len() >= keep && out.len() < keep + 4, "no more padding than needed");
+    let sb = s.as_bytes();
+    let mut i = 0;
+    while i < out.len() {
+        if i < keep {
+            assert!(out[i] == sb[i], "the text, truncated to the maximum");
+        } else {
+            assert!(out[i] == 0, "NUL padding after the text");
+        }
+        i += 1;
+    }
+    core::mem::forget(r);
+}
+
+/// The free-text packets sent to LFS must end in a NUL byte.
+fn check_terminated_fixed<const N: usize>(len: usize) {
+    let s = text(len);
+    let mut w = Cursor::new(Vec::new());
+    let r = binrw_write_codepage_string::<N, _>(&s, &mut w, Endian::Little, (false, 0));
+    let out = w.into_inner();
+    assert!(out.len() > 0 && out[out.len() - 1] == 0, "free-text field ends in a NUL byte");
+    core::mem::forget(r);
+}
+
+fn check_terminated_aligned<const N: usize>(len: usize) {
+    let s = text(len);
+    let mut w = Cursor::new(Vec::new());
+    let r = binrw_write_codepage_string::<N, _>(&s, &mut w, Endian::Little, (false, 4));
+    let out = w.into_inner();
+    assert!(out.len() > 0 && out[out.len() - 1] == 0, "free-text field ends in a NUL byte");
+    core::mem::forget(r);
+}
+
+//@ id: text_fixed_6_0
+//@ prop: C11
+//@ functions: insim_core/src/string/mod.rs binrw_write_codepage_string::<6>
+//@ statement: fixed-width text field of width 6, ASCII text of lengths [0, 1, 2, 3, 4, 5, 6, 7, 8, 9, 10, 11]: the field occupies exactly 6 bytes = the text truncated to 6, then NUL padding
+//@ bounded: text lengths 0..=11 of all 0..=2N+1 enumerated concretely, ASCII content (encoded length == character count); multi-byte / multi-codepage content reaches this logic only through the encoded length
+//@ timeout: 1500
+#[kani::proof]
+#[kani::stub(core::fmt::write, verif_fmt_ok)]
+fn c11_text_fixed_6_0() {
+    for len in [0, 1, 2, 3, 4, 5, 6, 7, 8, 9, 10, 11] {
+        check_fixed::<6>(len, false);
+    }
+}
+
+//@ id: text_fixed_6_1
+//@ prop: C11
+//@ functions: insim_core/src/string/mod.rs binrw_write_codepage_string::<6>
+//@ statement: fixed-width text field of width 6, ASCII text of lengths [12, 13]: the field occupies exactly 6 bytes = the text truncated to 6, then NUL padding
+//@ bounded: text lengths 12..=13 of all 0..=2N+1 enumerated concretely, ASCII content (encoded length == character count); multi-byte / multi-codepage content reaches this logic only through the encoded length
+//@ timeout: 1500
+#[kani::proof]
+#[kani::stub(core::fmt::write, verif_fmt_ok)]
+fn c11_text_fixed_6_1() {
+    for len in [12, 13] {
+        check_fixed::<6>(len, false);
+    }
+}
+
+//@ id: text_fixed_8_0
+//@ prop: C11
+//@ functions: insim_core/src/string/mod.rs binrw_write_codepage_string::<8>
+//@ statement: fixed-width text field of width 8, ASCII text of lengths [0, 1, 2, 3, 4, 5, 6, 7, 8, 9, 10, 11]: the field occupies exactly 8 bytes = the text truncated to 8, then NUL padding
+//@ bounded: text lengths 0..=11 of all 0..=2N+1 enumerated concretely, ASCII content (encoded length == character count); multi-byte / multi-codepage content reaches this logic only through the encoded length
+//@ timeout: 1500
+#[kani::proof]
+#[kani::stub(core::fmt::write, verif_fmt_ok)]
+fn c11_text_fixed_8_0() {
+    for len in [0, 1, 2, 3, 4, 5, 6, 7, 8, 9, 10, 11] {
+        check_fixed::<8>(len, false);
+    }
+}
+
+//@ id: text_fixed_8_1
+//@ prop: C11
+//@ functions: insim_core/src/string/mod.rs binrw_write_codepage_string::<8>
+//@ statement: fixed-width text field of width 8, ASCII text of lengths [12, 13, 14, 15, 16, 17]: the field occupies exactly 8 bytes = the text truncated to 8, then NUL padding
+//@ bounded: text lengths 12..=17 of all 0..=2N+1 enumerated concretely, ASCII content (encoded length == character count); multi-byte / multi-codepage content reaches this logic only through the encoded length
+//@ timeout: 1500
+#[kani::proof]
+#[kani::stub(core::fmt::write, verif_fmt_ok)]
+fn c11_text_fixed_8_1() {
+    for len in [12, 13, 14, 15, 16, 17] {
+        check_fixed::<8>(len, false);
+    }
+}
+
+//@ id: text_fixed_16_0
+//@ prop: C11
+//@ functions: insim_core/src/string/mod.rs binrw_write_codepage_string::<16>
+//@ statement: fixed-width text field of width 16, ASCII text of lengths [0, 1, 2, 3, 4, 5, 6, 7, 8, 9, 10, 11]: the field occupies exactly 16 bytes = the text truncated to 16, then NUL padding (also in raw mode, as used for the ISI admin password)
+//@ bounded: text lengths 0..=11 of all 0..=2N+1 enumerated concretely, ASCII content (encoded length == character count); multi-byte / multi-codepage content reaches this logic only through the encoded length
+//@ timeout: 1500
+#[kani::proof]
+#[kani::stub(core::fmt::write, verif_fmt_ok)]
+fn c11_text_fixed_16_0() {
+    for len in [0, 1, 2, 3, 4, 5, 6, 7, 8, 9, 10, 11] {
+        check_fixed::<16>(len, false);
+        check_fixed::<16>(len, true);
+    }
+}
+
+//@ id: text_fixed_16_1
+//@ prop: C11
+//@ functions: insim_core/src/string/mod.rs binrw_write_codepage_string::<16>
+//@ statement: fixed-width text field of width 16, ASCII text of lengths [12, 13, 14, 15, 16, 17, 18, 19, 20, 21, 22, 23]: the field occupies exactly 16 bytes = the text truncated to 16, then NUL padding (also in raw mode, as used for the ISI admin password)
+//@ bounded: text lengths 12..=23 of all 0..=2N+1 enumerated concretely, ASCII content (encoded length == character count); multi-byte / multi-codepage content reaches this logic only through the encoded length
+//@ timeout: 1500
+#[kani::proof]
+#[kani::stub(core::fmt::write, verif_fmt_ok)]
+fn c11_text_fixed_16_1() {
+    for len in [12, 13, 14, 15, 16, 17, 18, 19, 20, 21, 22, 23] {
+        check_fixed::<16>(len, false);
+        check_fixed::<16>(len, true);
+    }
+}
+
+//@ id: text_fixed_16_2
+//@ prop: C11
+//@ functions: insim_core/src/string/mod.rs binrw_write_codepage_string::<16>
+//@ statement: fixed-width text field of width 16, ASCII text of lengths [24, 25, 26, 27, 28, 29, 30, 31, 32, 33]: the field occupies exactly 16 bytes = the text truncated to 16, then NUL padding (also in raw mode, as used for the ISI admin password)
+//@ bounded: text lengths 24..=33 of all 0..=2N+1 enumerated concretely, ASCII content (encoded length == character count); multi-byte / multi-codepage content reaches this logic only through the encoded length
+//@ timeout: 1500
+#[kani::proof]
+#[kani::stub(core::fmt::write, verif_fmt_ok)]
+fn c11_text_fixed_16_2() {
+    for len in [24, 25, 26, 27, 28, 29, 30, 31, 32, 33] {
+        check_fixed::<16>(len, false);
+        check_fixed::<16>(len, true);
+    }
+}
+
+//@ id: text_fixed_24_0
+//@ prop: C11
+//@ functions: insim_core/src/string/mod.rs binrw_write_codepage_string::<24>
+//@ statement: fixed-width text field of width 24, ASCII text of lengths [0, 1, 2, 3, 4, 5, 6, 7, 8, 9, 10, 11]: the field occupies exactly 24 bytes = the text truncated to 24, then NUL padding
+//@ bounded: text lengths 0..=11 of all 0..=2N+1 enumerated concretely, ASCII content (encoded length == character count); multi-byte / multi-codepage content reaches this logic only through the encoded length
+//@ timeout: 1500
+#[kani::proof]
+#[kani::stub(core::fmt::write, verif_fmt_ok)]
+fn c11_text_fixed_24_0() {
+    for len in [0, 1, 2, 3, 4, 5, 6, 7, 8, 9, 10, 11] {
+        check_fixed::<24>(len, false);
+    }
+}
+
+//@ id: text_fixed_24_1
+//@ prop: C11
+//@ functions: insim_core/src/string/mod.rs binrw_write_codepage_string::<24>
+//@ statement: fixed-width text field of width 24, ASCII text of lengths [12, 13, 14, 15, 16, 17, 18, 19, 20, 21, 22, 23]: the field occupies exactly 24 bytes = the text truncated to 24, then NUL padding
+//@ bounded: text lengths 12..=23 of all 0..=2N+1 enumerated concretely, ASCII content (encoded length == character count); multi-byte / multi-codepage content reaches this logic only through the encoded length
+//@ timeout: 1500
+#[kani::proof]
+#[kani::stub(core::fmt::write, verif_fmt_ok)]
+fn c11_text_fixed_24_1() {
+    for len in [12, 13, 14, 15, 16, 17, 18, 19, 20, 21, 22, 23] {
+        check_fixed::<24>(len, false);
+    }
+}
+
+//@ id: text_fixed_24_2
+//@ prop: C11
+//@ functions: insim_core/src/string/mod.rs binrw_write_codepage_string::<24>
+//@ statement: fixed-width text field of width 24, ASCII text of lengths [24, 25, 26, 27, 28, 29, 30, 31, 32, 33, 34, 35]: the field occupies exactly 24 bytes = the text truncated to 24, then NUL padding
+//@ bounded: text lengths 24..=35 of all 0..=2N+1 enumerated concretely, ASCII content (encoded length == character count); multi-byte / multi-codepage content reaches this logic only through the encoded length
+//@ timeout: 1500
+#[kani::proof]
+#[kani::stub(core::fmt::write, verif_fmt_ok)]
+fn c11_text_fixed_24_2() {
+    for len in [24, 25, 26, 27, 28, 29, 30, 31, 32, 33, 34, 35] {
+        check_fixed::<24>(len, false);
+    }
+}
+
+//@ id: text_fixed_24_3
+//@ prop: C11
+//@ functions: insim_core/src/string/mod.rs binrw_write_codepage_string::<24>
+//@ statement: fixed-width text field of width 24, ASCII text of lengths [36, 37, 38, 39, 40, 41, 42, 43, 44, 45, 46, 47]: the field occupies exactly 24 bytes = the text truncated to 24, then NUL padding
+//@ bounded: text lengths 36..=47 of all 0..=2N+1 enumerated concretely, ASCII content (encoded length == character count); multi-byte / multi-codepage content reaches this logic only through the encoded length
+//@ timeout: 1500
+#[kani::proof]
+#[kani::stub(core::fmt::write, verif_fmt_ok)]
+fn c11_text_fixed_24_3() {
+    for len in [36, 37, 38, 39, 40, 41, 42, 43, 44, 45, 46, 47] {
+        check_fixed::<24>(len, false);
+    }
+}
+
+//@ id: text_fixed_24_4
+//@ prop: C11
+//@ functions: insim_core/src/string/mod.rs binrw_write_codepage_string::<24>
+//@ statement: fixed-width text field of width 24, ASCII text of lengths [48, 49]: the field occupies exactly 24 bytes = the text truncated to 24, then NUL padding
+//@ bounded: text lengths 48..=49 of all 0..=2N+1 enumerated concretely, ASCII content (encoded length == character count); multi-byte / multi-codepage content reaches this logic only through the encoded length
+//@ timeout: 1500
+#[kani::proof]
+#[kani::stub(core::fmt::write, verif_fmt_ok)]
+fn c11_text_fixed_24_4() {
+    for len in [48, 49] {
+        check_fixed::<24>(len, false);
+    }
+}
+
+//@ id: text_fixed_32_0
+//@ prop: C11
+//@ functions: insim_core/src/string/mod.rs binrw_write_codepage_string::<32>
+//@ statement: fixed-width text field of width 32, ASCII text of lengths [0, 1, 2, 3, 4, 5, 6, 7, 8, 9, 10, 11]: the field occupies exactly 32 bytes = the text truncated to 32, then NUL padding
+//@ bounded: text lengths 0..=11 of all 0..=2N+1 enumerated concretely, ASCII content (encoded length == character count); multi-byte / multi-codepage content reaches this logic only through the encoded length
+//@ timeout: 1500
+#[kani::proof]
+#[kani::stub(core::fmt::write, verif_fmt_ok)]
+fn c11_text_fixed_32_0() {
+    for len in [0, 1, 2, 3, 4, 5, 6, 7, 8, 9, 10, 11] {
+        check_fixed::<32>(len, false);
+    }
+}
+
+//@ id: text_fixed_32_1
+//@ prop: C11
+//@ functions: insim_core/src/string/mod.rs binrw_write_codepage_string::<32>
+//@ statement: fixed-width text field of width 32, ASCII text of lengths [12, 13, 14, 15, 16, 17, 18, 19, 20, 21, 22, 23]: the field occupies exactly 32 bytes = the text truncated to 32, then NUL padding
+//@ bounded: text lengths 12..=23 of all 0..=2N+1 enumerated concretely, ASCII content (encoded length == character count); multi-byte / multi-codepage content reaches this logic only through the encoded length
+//@ timeout: 1500
+#[kani::proof]
+#[kani::stub(core::fmt::write, verif_fmt_ok)]
+fn c11_text_fixed_32_1() {
+    for len in [12, 13, 14, 15, 16, 17, 18, 19, 20, 21, 22, 23] {
+        check_fixed::<32>(len, false);
+    }
+}
+
+//@ id: text_fixed_32_2
+//@ prop: C11
+//@ functions: insim_core/src/string/mod.rs binrw_write_codepage_string::<32>
+//@ statement: fixed-width text field of width 32, ASCII text of lengths [24, 25, 26, 27, 28, 29, 30, 31, 32, 33, 34, 35]: the field occupies exactly 32 bytes = the text truncated to 32, then NUL padding
+//@ bounded: text lengths 24..=35 of all 0..=2N+1 enumerated concretely, ASCII content (encoded length == character count); multi-byte / multi-codepage content reaches this logic only through the encoded length
+//@ timeout: 1500
+#[kani::proof]
+#[kani::stub(core::fmt::write, verif_fmt_ok)]
+fn c11_text_fixed_32_2() {
+    for len in [24, 25, 26, 27, 28, 29, 30, 31, 32, 33, 34, 35] {
+        check_fixed::<32>(len, false);
+    }
+}
+
+//@ id: text_fixed_32_3
+//@ prop: C11
+//@ functions: insim_core/src/string/mod.rs binrw_write_codepage_string::<32>
+//@ statement: fixed-width text field of width 32, ASCII text of lengths [36, 37, 38, 39, 40, 41, 42, 43, 44, 45, 46, 47]: the field occupies exactly 32 bytes = the text truncated to 32, then NUL padding
+//@ bounded: text lengths 36..=47 of all 0..=2N+1 enumerated concretely, ASCII content (encoded length == character count); multi-byte / multi-codepage content reaches this logic only through the encoded length
+//@ timeout: 1500
+#[kani::proof]
+#[kani::stub(core::fmt::write, verif_fmt_ok)]
+fn c11_text_fixed_32_3() {
+    for len in [36, 37, 38, 39, 40, 41, 42, 43, 44, 45, 46, 47] {
+        check_fixed::<32>(len, false);
+    }
+}
+
+//@ id: text_fixed_32_4
+//@ prop: C11
+//@ functions: insim_core/src/string/mod.rs binrw_write_codepage_string::<32>
+//@ statement: fixed-width text field of width 32, ASCII text of lengths [48, 49, 50, 51, 52, 53, 54, 55, 56, 57, 58, 59]: the field occupies exactly 32 bytes = the text truncated to 32, then NUL padding
+//@ bounded: text lengths 48..=59 of all 0..=2N+1 enumerated concretely, ASCII content (encoded length == character count); multi-byte / multi-codepage content reaches this logic only through the encoded length
+//@ timeout: 1500
+#[kani::proof]
+#[kani::stub(core::fmt::write, verif_fmt_ok)]
+fn c11_text_fixed_32_4() {
+    for len in [48, 49, 50, 51, 52, 53, 54, 55, 56, 57, 58, 59] {
+        check_fixed::<32>(len, false);
+    }
+}
+
+//@ id: text_fixed_32_5
+//@ prop: C11
+//@ functions: insim_core/src/string/mod.rs binrw_write_codepage_string::<32>
+//@ statement: fixed-width text field of width 32, ASCII text of lengths [60, 61, 62, 63, 64, 65]: the field occupies exactly 32 bytes = the text truncated to 32, then NUL padding
+//@ bounded: text lengths 60..=65 of all 0..=2N+1 enumerated concretely, ASCII content (encoded length == character count); multi-byte / multi-codepage content reaches this logic only through the encoded length
+//@ timeout: 1500
+#[kani::proof]
+#[kani::stub(core::fmt::write, verif_fmt_ok)]
+fn c11_text_fixed_32_5() {
+    for len in [60, 61, 62, 63, 64, 65] {
+        check_fixed::<32>(len, false);
+    }
+}
+
+//@ id: text_fixed_64_0
+//@ prop: C11
+//@ functions: insim_core/src/string/mod.rs binrw_write_codepage_string::<64>
+//@ statement: fixed-width text field of width 64, ASCII text of lengths [0, 1, 2, 3, 4, 5, 59, 60, 61, 62, 63, 64]: the field occupies exactly 64 bytes = the text truncated to 64, then NUL padding
+//@ bounded: text lengths 0..=64 of the boundary set {0..5} u {N-5..N+5} u {2N,2N+1} enumerated concretely, ASCII content (encoded length == character count); multi-byte / multi-codepage content reaches this logic only through the encoded length
+//@ timeout: 1500
+#[kani::proof]
+#[kani::stub(core::fmt::write, verif_fmt_ok)]
+fn c11_text_fixed_64_0() {
+    for len in [0, 1, 2, 3, 4, 5, 59, 60, 61, 62, 63, 64] {
+        check_fixed::<64>(len, false);
+    }
+}
+
+//@ id: text_fixed_64_1
+//@ prop: C11
+//@ functions: insim_core/src/string/mod.rs binrw_write_codepage_string::<64>
+//@ statement: fixed-width text field of width 64, ASCII text of lengths [65, 66, 67, 68, 69, 128, 129]: the field occupies exactly 64 bytes = the text truncated to 64, then NUL padding
+//@ bounded: text lengths 65..=129 of the boundary set {0..5} u {N-5..N+5} u {2N,2N+1} enumerated concretely, ASCII content (encoded length == character count); multi-byte / multi-codepage content reaches this logic only through the encoded length
+//@ timeout: 1500
+#[kani::proof]
+#[kani::stub(core::fmt::write, verif_fmt_ok)]
+fn c11_text_fixed_64_1() {
+    for len in [65, 66, 67, 68, 69, 128, 129] {
+        check_fixed::<64>(len, false);
+    }
+}
+
+//@ id: text_fixed_96_0
+//@ prop: C11
+//@ functions: insim_core/src/string/mod.rs binrw_write_codepage_string::<96>
+//@ statement: fixed-width text field of width 96, ASCII text of lengths [0, 1, 2, 3, 4, 5, 91, 92, 93, 94, 95, 96]: the field occupies exactly 96 bytes = the text truncated to 96, then NUL padding
+//@ bounded: text lengths 0..=96 of the boundary set {0..5} u {N-5..N+5} u {2N,2N+1} enumerated concretely, ASCII content (encoded length == character count); multi-byte / multi-codepage content reaches this logic only through the encoded length
+//@ timeout: 1500
+#[kani::proof]
+#[kani::stub(core::fmt::write, verif_fmt_ok)]
+fn c11_text_fixed_96_0() {
+    for len in [0, 1, 2, 3, 4, 5, 91, 92, 93, 94, 95, 96] {
+        check_fixed::<96>(len, false);
+    }
+}
+
+//@ id: text_fixed_96_1
+//@ prop: C11
+//@ functions: insim_core/src/string/mod.rs binrw_write_codepage_string::<96>
+//@ statement: fixed-width text field of width 96, ASCII text of lengths [97, 98, 99, 100, 101, 192, 193]: the field occupies exactly 96 bytes = the text truncated to 96, then NUL padding
+//@ bounded: text lengths 97..=193 of the boundary set {0..5} u {N-5..N+5} u {2N,2N+1} enumerated concretely, ASCII content (encoded length == character count); multi-byte / multi-codepage content reaches this logic only through the encoded length
+//@ timeout: 1500
+#[kani::proof]
+#[kani::stub(core::fmt::write, verif_fmt_ok)]
+fn c11_text_fixed_96_1() {
+    for len in [97, 98, 99, 100, 101, 192, 193] {
+        check_fixed::<96>(len, false);
+    }
+}
+
+//@ id: text_fixed_128_0
+//@ prop: C11
+//@ functions: insim_core/src/string/mod.rs binrw_write_codepage_string::<128>
+//@ statement: fixed-width text field of width 128, ASCII text of lengths [0, 1, 2, 3, 4, 5, 123, 124, 125, 126, 127, 128]: the field occupies exactly 128 bytes = the text truncated to 128, then NUL padding
+//@ bounded: text lengths 0..=128 of the boundary set {0..5} u {N-5..N+5} u {2N,2N+1} enumerated concretely, ASCII content (encoded length == character count); multi-byte / multi-codepage content reaches this logic only through the encoded length
+//@ timeout: 1500
+#[kani::proof]
+#[kani::stub(core::fmt::write, verif_fmt_ok)]
+fn c11_text_fixed_128_0() {
+    for len in [0, 1, 2, 3, 4, 5, 123, 124, 125, 126, 127, 128] {
+        check_fixed::<128>(len, false);
+    }
+}
+
+//@ id: text_fixed_128_1
+//@ prop: C11
+//@ functions: insim_core/src/string/mod.rs binrw_write_codepage_string::<128>
+//@ statement: fixed-width text field of width 128, ASCII text of lengths [129, 130, 131, 132, 133, 256, 257]: the field occupies exactly 128 bytes = the text truncated to 128, then NUL padding
+//@ bounded: text lengths 129..=257 of the boundary set {0..5} u {N-5..N+5} u {2N,2N+1} enumerated concretely, ASCII content (encoded length == character count); multi-byte / multi-codepage content reaches this logic only through the encoded length
+//@ timeout: 1500
+#[kani::proof]
+#[kani::stub(core::fmt::write, verif_fmt_ok)]
+fn c11_text_fixed_128_1() {
+    for len in [129, 130, 131, 132, 133, 256, 257] {
+        check_fixed::<128>(len, false);
+    }
+}
+
+//@ id: text_fixed_240_0
+//@ prop: C11
+//@ functions: insim_core/src/string/mod.rs binrw_write_codepage_string::<240>
+//@ statement: fixed-width text field of width 240, ASCII text of lengths [0, 1, 2, 3, 4, 5, 235, 236, 237, 238, 239, 240]: the field occupies exactly 240 bytes = the text truncated to 240, then NUL padding
+//@ bounded: text lengths 0..=240 of the boundary set {0..5} u {N-5..N+5} u {2N,2N+1} enumerated concretely, ASCII content (encoded length == character count); multi-byte / multi-codepage content reaches this logic only through the encoded length
+//@ timeout: 1500
+#[kani::proof]
+#[kani::stub(core::fmt::write, verif_fmt_ok)]
+fn c11_text_fixed_240_0() {
+    for len in [0, 1, 2, 3, 4, 5, 235, 236, 237, 238, 239, 240] {
+        check_fixed::<240>(len, false);
+    }
+}
+
+//@ id: text_fixed_240_1
+//@ prop: C11
+//@ functions: insim_core/src/string/mod.rs binrw_write_codepage_string::<240>
+//@ statement: fixed-width text field of width 240, ASCII text of lengths [241, 242, 243, 244, 245, 480, 481]: the field occupies exactly 240 bytes = the text truncated to 240, then NUL padding
+//@ bounded: text lengths 241..=481 of the boundary set {0..5} u {N-5..N+5} u {2N,2N+1} enumerated concretely, ASCII content (encoded length == character count); multi-byte / multi-codepage content reaches this logic only through the encoded length
+//@ timeout: 1500
+#[kani::proof]
+#[kani::stub(core::fmt::write, verif_fmt_ok)]
+fn c11_text_fixed_240_1() {
+    for len in [241, 242, 243, 244, 245, 480, 481] {
+        check_fixed::<240>(len, false);
+    }
+}
+
+//@ id: text_aligned_64_0
+//@ prop: C11
+//@ functions: insim_core/src/string/mod.rs binrw_write_codepage_string::<64>
+//@ statement: variable-width message field of maximum 64 (aligned to 4), ASCII text of lengths [0, 1, 2, 3, 4, 5, 6, 7, 8, 9, 58, 59]: the field is the text (truncated to 64) NUL-padded to a multiple of 4, never longer than 64, with less than 4 bytes of padding
+//@ bounded: text lengths [0, 1, 2, 3, 4, 5, 6, 7, 8, 9, 58, 59] enumerated concretely (every residue mod 4 on both sides of the maximum), ASCII content
+//@ timeout: 1500
+#[kani::proof]
+#[kani::stub(core::fmt::write, verif_fmt_ok)]
+fn c11_text_aligned_64_0() {
+    for len in [0, 1, 2, 3, 4, 5, 6, 7, 8, 9, 58, 59] {
+        check_aligned::<64>(len);
+    }
+}
+
+//@ id: text_aligned_64_1
+//@ prop: C11
+//@ functions: insim_core/src/string/mod.rs binrw_write_codepage_string::<64>
+//@ statement: variable-width message field of maximum 64 (aligned to 4), ASCII text of lengths [60, 61, 62, 63, 64, 65, 66, 67, 68, 69, 128, 129]: the field is the text (truncated to 64) NUL-padded to a multiple of 4, never longer than 64, with less than 4 bytes of padding
+//@ bounded: text lengths [60, 61, 62, 63, 64, 65, 66, 67, 68, 69, 128, 129] enumerated concretely (every residue mod 4 on both sides of the maximum), ASCII content
+//@ timeout: 1500
+#[kani::proof]
+#[kani::stub(core::fmt::write, verif_fmt_ok)]
+fn c11_text_aligned_64_1() {
+    for len in [60, 61, 62, 63, 64, 65, 66, 67, 68, 69, 128, 129] {
+        check_aligned::<64>(len);
+    }
+}
+
+//@ id: text_aligned_128_0
+//@ prop: C11
+//@ functions: insim_core/src/string/mod.rs binrw_write_codepage_string::<128>
+//@ statement: variable-width message field of maximum 128 (aligned to 4), ASCII text of lengths [0, 1, 2, 3, 4, 5, 6, 7, 8, 9, 122, 123]: the field is the text (truncated to 128) NUL-padded to a multiple of 4, never longer than 128, with less than 4 bytes of padding
+//@ bounded: text lengths [0, 1, 2, 3, 4, 5, 6, 7, 8, 9, 122, 123] enumerated concretely (every residue mod 4 on both sides of the maximum), ASCII content
+//@ timeout: 1500
+#[kani::proof]
+#[kani::stub(core::fmt::write, verif_fmt_ok)]
+fn c11_text_aligned_128_0() {
+    for len in [0, 1, 2, 3, 4, 5, 6, 7, 8, 9, 122, 123] {
+        check_aligned::<128>(len);
+    }
+}
+
+//@ id: text_aligned_128_1
+//@ prop: C11
+//@ functions: insim_core/src/string/mod.rs binrw_write_codepage_string::<128>
+//@ statement: variable-width message field of maximum 128 (aligned to 4), ASCII text of lengths [124, 125, 126, 127, 128, 129, 130, 131, 132, 133, 256, 257]: the field is the text (truncated to 128) NUL-padded to a multiple of 4, never longer than 128, with less than 4 bytes of padding
+//@ bounded: text lengths [124, 125, 126, 127, 128, 129, 130, 131, 132, 133, 256, 257] enumerated concretely (every residue mod 4 on both sides of the maximum), ASCII content
+//@ timeout: 1500
+#[kani::proof]
+#[kani::stub(core::fmt::write, verif_fmt_ok)]
+fn c11_text_aligned_128_1() {
+    for len in [124, 125, 126, 127, 128, 129, 130, 131, 132, 133, 256, 257] {
+        check_aligned::<128>(len);
+    }
+}
+
+//@ id: text_aligned_240_0
+//@ prop: C11
+//@ functions: insim_core/src/string/mod.rs binrw_write_codepage_string::<240>
+//@ statement: variable-width message field of maximum 240 (aligned to 4), ASCII text of lengths [0, 1, 2, 3, 4, 5, 6, 7, 8, 9, 234, 235]: the field is the text (truncated to 240) NUL-padded to a multiple of 4, never longer than 240, with less than 4 bytes of padding
+//@ bounded: text lengths [0, 1, 2, 3, 4, 5, 6, 7, 8, 9, 234, 235] enumerated concretely (every residue mod 4 on both sides of the maximum), ASCII content
+//@ timeout: 1500
+#[kani::proof]
+#[kani::stub(core::fmt::write, verif_fmt_ok)]
+fn c11_text_aligned_240_0() {
+    for len in [0, 1, 2, 3, 4, 5, 6, 7, 8, 9, 234, 235] {
+        check_aligned::<240>(len);
+    }
+}
+
+//@ id: text_aligned_240_1
+//@ prop: C11
+//@ functions: insim_core/src/string/mod.rs binrw_write_codepage_string::<240>
+//@ statement: variable-width message field of maximum 240 (aligned to 4), ASCII text of lengths [236, 237, 238, 239, 240, 241, 242, 243, 244, 245, 480, 481]: the field is the text (truncated to 240) NUL-padded to a multiple of 4, never longer than 240, with less than 4 bytes of padding
+//@ bounded: text lengths [236, 237, 238, 239, 240, 241, 242, 243, 244, 245, 480, 481] enumerated concretely (every residue mod 4 on both sides of the maximum), ASCII content
+//@ timeout: 1500
+#[kani::proof]
+#[kani::stub(core::fmt::write, verif_fmt_ok)]
+fn c11_text_aligned_240_1() {
+    for len in [236, 237, 238, 239, 240, 241, 242, 243, 244, 245, 480, 481] {
+        check_aligned::<240>(len);
+    }
+}
+
+//@ id: terminated_mst_short
+//@ prop: C11
+//@ functions: insim_core/src/string/mod.rs binrw_write_codepage_string::<64>
+//@ statement: the text field of MST (width 64, fixed) ends in a NUL byte for ASCII text of lengths [0, 1, 2, 3, 5, 62, 63]
+//@ bounded: text lengths [0, 1, 2, 3, 5, 62, 63] enumerated concretely
+//@ timeout: 1500
+#[kani::proof]
+#[kani::stub(core::fmt::write, verif_fmt_ok)]
+fn c11_terminated_mst_short() {
+    for len in [0, 1, 2, 3, 5, 62, 63] {
+        check_terminated_fixed::<64>(len);
+    }
+}
+
+//@ id: terminated_mst_full
+//@ prop: C11
+//@ functions: insim_core/src/string/mod.rs binrw_write_codepage_string::<64>
+//@ statement: the text field of MST (width 64, fixed) ends in a NUL byte for ASCII text of lengths [64, 65, 128] - the lengths that leave no room for a terminator
+//@ bounded: text lengths [64, 65, 128] enumerated concretely
+//@ timeout: 1500
+#[kani::proof]
+#[kani::stub(core::fmt::write, verif_fmt_ok)]
+fn c11_terminated_mst_full() {
+    for len in [64, 65, 128] {
+        check_terminated_fixed::<64>(len);
+    }
+}
+
+//@ id: terminated_msx_short
+//@ prop: C11
+//@ functions: insim_core/src/string/mod.rs binrw_write_codepage_string::<96>
+//@ statement: the text field of MSX (width 96, fixed) ends in a NUL byte for ASCII text of lengths [0, 1, 2, 3, 5, 94, 95]
+//@ bounded: text lengths [0, 1, 2, 3, 5, 94, 95] enumerated concretely
+//@ timeout: 1500
+#[kani::proof]
+#[kani::stub(core::fmt::write, verif_fmt_ok)]
+fn c11_terminated_msx_short() {
+    for len in [0, 1, 2, 3, 5, 94, 95] {
+        check_terminated_fixed::<96>(len);
+    }
+}
+
+//@ id: terminated_msx_full
+//@ prop: C11
+//@ functions: insim_core/src/string/mod.rs binrw_write_codepage_string::<96>
+//@ statement: the text field of MSX (width 96, fixed) ends in a NUL byte for ASCII text of lengths [96, 97, 192] - the lengths that leave no room for a terminator
+//@ bounded: text lengths [96, 97, 192] enumerated concretely
+//@ timeout: 1500
+#[kani::proof]
+#[kani::stub(core::fmt::write, verif_fmt_ok)]
+fn c11_terminated_msx_full() {
+    for len in [96, 97, 192] {
+        check_terminated_fixed::<96>(len);
+    }
+}
+
+//@ id: terminated_msl_short
+//@ prop: C11
+//@ functions: insim_core/src/string/mod.rs binrw_write_codepage_string::<128>
+//@ statement: the text field of MSL (width 128, fixed) ends in a NUL byte for ASCII text of lengths [0, 1, 2, 3, 5, 126, 127]
+//@ bounded: text lengths [0, 1, 2, 3, 5, 126, 127] enumerated concretely
+//@ timeout: 1500
+#[kani::proof]
+#[kani::stub(core::fmt::write, verif_fmt_ok)]
+fn c11_terminated_msl_short() {
+    for len in [0, 1, 2, 3, 5, 126, 127] {
+        check_terminated_fixed::<128>(len);
+    }
+}
+
+//@ id: terminated_msl_full
+//@ prop: C11
+//@ functions: insim_core/src/string/mod.rs binrw_write_codepage_string::<128>
+//@ statement: the text field of MSL (width 128, fixed) ends in a NUL byte for ASCII text of lengths [128, 129, 256] - the lengths that leave no room for a terminator
+//@ bounded: text lengths [128, 129, 256] enumerated concretely
+//@ timeout: 1500
+#[kani::proof]
+#[kani::stub(core::fmt::write, verif_fmt_ok)]
+fn c11_terminated_msl_full() {
+    for len in [128, 129, 256] {
+        check_terminated_fixed::<128>(len);
+    }
+}
+
+//@ id: terminated_mtc_short
+//@ prop: C11
+//@ functions: insim_core/src/string/mod.rs binrw_write_codepage_string::<128>
+//@ statement: the text field of MTC (width 128, aligned) ends in a NUL byte for ASCII text of lengths [0, 1, 2, 3, 5, 6, 7, 125, 126, 127]
+//@ bounded: text lengths [0, 1, 2, 3, 5, 6, 7, 125, 126, 127] enumerated concretely
+//@ timeout: 1500
+#[kani::proof]
+#[kani::stub(core::fmt::write, verif_fmt_ok)]
+fn c11_terminated_mtc_short() {
+    for len in [0, 1, 2, 3, 5, 6, 7, 125, 126, 127] {
+        check_terminated_aligned::<128>(len);
+    }
+}
+
+//@ id: terminated_mtc_full
+//@ prop: C11
+//@ functions: insim_core/src/string/mod.rs binrw_write_codepage_string::<128>
+//@ statement: the text field of MTC (width 128, aligned) ends in a NUL byte for ASCII text of lengths [4, 8, 124, 128, 129] - the lengths that leave no room for a terminator
+//@ bounded: text lengths [4, 8, 124, 128, 129] enumerated concretely
+//@ timeout: 1500
+#[kani::proof]
+#[kani::stub(core::fmt::write, verif_fmt_ok)]
+fn c11_terminated_mtc_full() {
+    for len in [4, 8, 124, 128, 129] {
+        check_terminated_aligned::<128>(len);
+    }
+}
